@@ -291,7 +291,7 @@ def run_codegen(defs: list[dict], keep: bool = False, seed: int = 0) -> dict:
         os.makedirs(ddir)
         for d in defs:
             with open(os.path.join(ddir, d["name"] + ".json"), "w") as fh:
-                json.dump(d, fh, indent=1)
+                json.dump(d, fh, indent=1, ensure_ascii=False)   # text as upstream writes it: UTF-8, not \\u escapes
         runner = os.path.join(scratch, "runner.py")
         open(runner, "w").write(RUNNER)
         p = subprocess.run(["/venv/bin/python", runner, scratch, os.path.dirname(os.path.abspath(__file__)), str(seed)],
